@@ -167,6 +167,15 @@ def observe_scaled(fx, np, props, t, modes, scale, bias, us, route='ctor', scala
                 x = fx.Fxp(obj, **kw)
             elif route == 'ctor':
                 x = fx.Fxp(obj, bool(t[0]), t[1], t[2], **kw)
+            elif route == 'like':               # built like= a scaled reference object
+                ref = fx.Fxp(None, bool(t[0]), t[1], t[2], **kw)
+                x = fx.Fxp(obj, like=ref)
+            elif route == 'template':           # built through the class-level template
+                fx.Fxp.template = fx.Fxp(None, bool(t[0]), t[1], t[2], **kw)
+                try:
+                    x = fx.Fxp(obj)
+                finally:
+                    fx.Fxp.template = None
             elif route == 'call':
                 x = fx.Fxp(None, bool(t[0]), t[1], t[2], **kw)
                 x.reset()
